@@ -7,7 +7,7 @@ Ltac Zify.zify_post_hook ::= Z.to_euclidean_division_equations.
 
 (* ------------------------------------------------------------------ constants *)
 Lemma constants : c_FREQ_TYPE_SERV = 1 /\ c_FREQ_TYPE_HOPP = 2 /\ c_FREQ_TABLE_SIZE = 1024 /\ c_HOPPING_SIZE = 64 /\
-                  c_EINVAL = 22 /\ c_FREQ_ENTRY_SIZE = 1.
+                  c_EINVAL = 22 /\ c_FREQ_ENTRY_SIZE = 1 /\ c_F_CAPACITY = 64.
 Proof. repeat split; reflexivity. Qed.
 
 (* ------------------------------------------------------------------ lists, ranges *)
@@ -120,12 +120,12 @@ Definition servl (l : list (Z * Z)) : list Z := map fst (filter (fun p => is_ser
 Lemma firstn_exact {A : Type} (l x : list A) : firstn (length l) (l ++ x) = l.
 Proof. rewrite firstn_app, firstn_all, Nat.sub_diag. cbn [firstn]. apply app_nil_r. Qed.
 
-Lemma gen_f_ok cap : 0 < cap -> forall l f, Zlength f < cap ->
-  gen_f cap l f (Zlength f) = Some (firstn (Z.to_nat cap) (f ++ servl l), Z.min cap (Zlength (f ++ servl l))).
+Lemma gen_f_ok fcap cap : 0 < cap <= fcap -> forall l f, Zlength f < cap ->
+  gen_f fcap cap l f (Zlength f) = Some (firstn (Z.to_nat cap) (f ++ servl l), Z.min cap (Zlength (f ++ servl l))).
 Proof. intros Hc. induction l as [|[a m] r IH]; intros f Hf; cbn [gen_f].
   - unfold servl. cbn [filter map]. rewrite app_nil_r, firstn_all2 by (rewrite Zlength_correct in Hf; lia). f_equal. f_equal. lia.
   - unfold servl. cbn [filter snd]. destruct (is_serv m) eqn:Es.
-    + cbn [map fst]. fold (servl r). replace (Zlength f <? cap) with true by lia.
+    + cbn [map fst]. fold (servl r). replace (Zlength f <? fcap) with true by lia.
       replace (f ++ a :: servl r) with ((f ++ [a]) ++ servl r) by (rewrite <- app_assoc; reflexivity).
       assert (Hl : Zlength (f ++ [a]) = Zlength f + 1) by (rewrite Zlength_app, Zlength_cons, Zlength_nil; lia).
       destruct (Zlength f + 1 =? cap) eqn:E.
@@ -133,10 +133,6 @@ Proof. intros Hc. induction l as [|[a m] r IH]; intros f Hf; cbn [gen_f].
         rewrite Hc', firstn_exact. f_equal. f_equal. rewrite Zlength_app. pose proof (Zlength_nonneg (servl r)). lia.
       * rewrite <- Hl. apply IH. lia.
     + fold (servl r). apply IH, Hf. Qed.
-
-Lemma gen_f_cap0 l : gen_f 0 l [] 0 = match servl l with [] => Some ([], 0) | _ :: _ => None end.
-Proof. induction l as [|[a m] r IH]; [reflexivity|]. cbn [gen_f]. unfold servl. cbn [filter snd].
-  destruct (is_serv m); [reflexivity|]. exact IH. Qed.
 
 Lemma order_eq : order = range 1 1024 ++ [0].
 Proof. vm_compute. reflexivity. Qed.
@@ -198,19 +194,19 @@ Proof. intros Hi. rewrite bit_test by exact Hi. unfold ma_bit. rewrite Z.shiftr_
 Definition selr (ma : list Z) (len : Z) (f is : list Z) : list Z :=
   map (zn f) (cut (Zlength f) (filter (ma_bit ma len) is)).
 
-Lemma pick_ok ma len f si4 : len <= Zlength ma -> Zlength f <= 8 * len ->
+Lemma pick_ok ma len fcap f si4 : len <= Zlength ma -> Zlength f <= 8 * len -> 8 * len <= fcap ->
   forall is s,
     Forall (fun i => 0 <= i < 8 * len) is ->
     Forall (fun a => 0 <= a < Zlength (s_freq s)) f ->
     0 <= s_hlen s -> s_hlen s + Zlength is <= Zlength (s_hop s) -> s_hlen s + Zlength is < 256 ->
-    exists s', pick ma len (8 * len) f (Zlength f) si4 is s = Some s' /\
+    exists s', pick ma len fcap f (Zlength f) si4 is s = Some s' /\
       s_hlen s' = s_hlen s + Zlength (selr ma len f is) /\
       Zlength (s_hop s') = Zlength (s_hop s) /\ Zlength (s_freq s') = Zlength (s_freq s) /\
       (forall k, 0 <= k -> zn (s_hop s') k =
          if (s_hlen s <=? k) && (k <? s_hlen s + Zlength (selr ma len f is)) then zn (selr ma len f is) (k - s_hlen s) else zn (s_hop s) k) /\
       (forall a, 0 <= a -> zn (s_freq s') a =
          if si4 && has (selr ma len f is) a then set_hopp (zn (s_freq s) a) else zn (s_freq s) a).
-Proof. intros Hma Hfl. induction is as [|i r IH]; intros s His Hfr Hh0 Hh1 Hh2.
+Proof. intros Hma Hfl Hfc. induction is as [|i r IH]; intros s His Hfr Hh0 Hh1 Hh2.
   - exists s. unfold selr. cbn [pick filter cut map]. rewrite Zlength_nil. repeat split; [lia| |].
     + intros k Hk. replace ((s_hlen s <=? k) && (k <? s_hlen s + 0)) with false by lia. reflexivity.
     + intros a Ha. unfold has. cbn [existsb]. rewrite andb_false_r. reflexivity.
@@ -218,7 +214,7 @@ Proof. intros Hma Hfl. induction is as [|i r IH]; intros s His Hfr Hh0 Hh1 Hh2.
     cbn [pick]. rewrite rd_ok by (rewrite Z.shiftr_div_pow2 by lia; change (2 ^ 3) with 8; lia).
     rewrite ma_bit_model by lia. unfold selr. cbn [filter]. destruct (ma_bit ma len i) eqn:Eb.
     2:{ fold (selr ma len f r). apply IH; auto; lia. }
-    replace (8 * len <=? i) with false by lia. cbn [cut]. destruct (Zlength f <=? i) eqn:Ej.
+    replace (fcap <=? i) with false by lia. cbn [cut]. destruct (Zlength f <=? i) eqn:Ej.
     + replace (i <? Zlength f) with false by lia. cbn [map]. rewrite Zlength_nil. exists s. repeat split; [lia| |].
       * intros k Hk. replace ((s_hlen s <=? k) && (k <? s_hlen s + 0)) with false by lia. reflexivity.
       * intros a Ha. unfold has. cbn [existsb]. rewrite andb_false_r. reflexivity.
@@ -312,26 +308,37 @@ Proof. intros Hlen. unfold spec_hopping. set (ca := cell_alloc freq). set (bits 
 Lemma shiftl3 len : Z.shiftl len 3 = 8 * len.
 Proof. rewrite Z.shiftl_mul_pow2 by lia. change (2 ^ 3) with 8. lia. Qed.
 
-Lemma decode_gnu_ok freq ma len hop hl si4 :
-  Zlength freq = 1024 -> 1 <= len <= 8 -> len <= Zlength ma -> 64 <= Zlength hop ->
-  exists s, decode_gnu freq ma len hop hl si4 = Ok 0 s /\
+Lemma spec_len0 freq ma : spec_hopping freq ma 0 = [].
+Proof. reflexivity. Qed.
+
+Lemma decode_ok freq ma len hop hl si4 :
+  Zlength freq = 1024 -> 0 <= len <= 8 -> len <= Zlength ma -> 64 <= Zlength hop ->
+  exists s, decode freq ma len hop hl si4 = Ok 0 s /\
     s_hlen s = Zlength (spec_hopping freq ma len) /\ Zlength (s_hop s) = Zlength hop /\ Zlength (s_freq s) = 1024 /\
     (forall k, 0 <= k -> zn (s_hop s) k = if k <? Zlength (spec_hopping freq ma len) then zn (spec_hopping freq ma len) k else zn hop k) /\
     (forall a, 0 <= a -> zn (s_freq s) a =
        if si4 =? 0 then zn freq a
        else if has (spec_hopping freq ma len) a then set_hopp (clr_hopp (zn freq a)) else clr_hopp (zn freq a)).
-Proof. intros Hfl Hlen Hma Hhop. unfold decode_gnu. rewrite shiftl3. replace (8 <? len) with false by lia.
-  replace (Zlength freq <? 1024) with false by lia.
+Proof. intros Hfl Hlen Hma Hhop. unfold decode. rewrite shiftl3. replace (8 <? len) with false by lia.
+  replace (Zlength freq <? 1024) with false by lia. rewrite andb_false_r.
   set (si4b := negb (si4 =? 0)). set (fr1 := if si4b then tabula_rasa freq else freq).
   assert (Hfl1 : Zlength fr1 = 1024).
   { unfold fr1. destruct si4b; [|exact Hfl]. rewrite tabula_rasa_eq by exact Hfl. rewrite Zlength_map. exact Hfl. }
+  assert (Hfr1 : forall a, zn fr1 a = if si4 =? 0 then zn freq a else clr_hopp (zn freq a)).
+  { intros a. unfold fr1, si4b. destruct (si4 =? 0); cbn [negb]; [reflexivity|]. rewrite tabula_rasa_eq by exact Hfl. apply zn_map_clr. }
+  destruct (len =? 0) eqn:E0.
+  { assert (len = 0) by lia. subst len. exists (mkst fr1 hop 0). rewrite spec_len0. cbn [s_freq s_hop s_hlen].
+    split; [reflexivity|]. split; [reflexivity|]. split; [reflexivity|]. split; [exact Hfl1|]. split.
+    - intros k Hk. rewrite Zlength_nil. replace (k <? 0) with false by lia. reflexivity.
+    - intros a Ha. rewrite Hfr1. destruct (si4 =? 0); reflexivity. }
   assert (Hca : servl (visit fr1) = cell_alloc freq).
   { unfold fr1. destruct si4b; [apply servl_visit_tr|apply servl_visit]; exact Hfl. }
-  pose proof (gen_f_ok (8 * len) ltac:(lia) (visit fr1) [] ltac:(rewrite Zlength_nil; lia)) as G.
+  assert (Hcap : c_F_CAPACITY = 64) by reflexivity.
+  pose proof (gen_f_ok c_F_CAPACITY (8 * len) ltac:(lia) (visit fr1) [] ltac:(rewrite Zlength_nil; lia)) as G.
   rewrite Zlength_nil in G. cbn [app] in G. rewrite Hca in G. rewrite G. clear G.
   set (ca := cell_alloc freq). set (f := firstn (Z.to_nat (8 * len)) ca).
   assert (Hf : Zlength f = Z.min (8 * len) (Zlength ca)) by (apply Zlength_firstn; lia). rewrite <- Hf.
-  destruct (pick_ok ma len f si4b Hma ltac:(lia) (range 0 (8 * len)) (mkst fr1 hop 0)) as (s & Ep & H1 & H2 & H3 & H4 & H5); cbn [s_freq s_hop s_hlen].
+  destruct (pick_ok ma len c_F_CAPACITY f si4b Hma ltac:(lia) ltac:(lia) (range 0 (8 * len)) (mkst fr1 hop 0)) as (s & Ep & H1 & H2 & H3 & H4 & H5); cbn [s_freq s_hop s_hlen].
   { apply Forall_forall. intros i Hi. apply range_in in Hi. lia. }
   { apply Forall_forall. intros a Ha. apply firstn_In', cell_alloc_In in Ha. lia. }
   { lia. } { rewrite Zlength_range. lia. } { rewrite Zlength_range. lia. }
@@ -340,8 +347,7 @@ Proof. intros Hfl Hlen Hma Hhop. unfold decode_gnu. rewrite shiftl3. replace (8 
   { unfold selr, spec_hopping. rewrite Hf. apply cut_firstn. apply Forall_forall. intros i Hi. apply filter_In in Hi as [Hi _]. apply range_in in Hi. lia. }
   rewrite Es in *. split; [lia|]. split; [exact H2|]. split; [lia|]. split.
   - intros k Hk. rewrite H4 by exact Hk. replace (0 <=? k) with true by lia. rewrite Z.sub_0_r. reflexivity.
-  - intros a Ha. rewrite H5 by exact Ha. unfold fr1, si4b. destruct (si4 =? 0); cbn [negb andb]; [reflexivity|].
-    rewrite tabula_rasa_eq by exact Hfl. rewrite zn_map_clr. reflexivity. Qed.
+  - intros a Ha. rewrite H5 by exact Ha. rewrite Hfr1. unfold si4b. destruct (si4 =? 0); cbn [negb andb]; reflexivity. Qed.
 
 Lemma nth_skipn' {A} (l : list A) : forall k n d, nth n (skipn k l) d = nth (k + n) l d.
 Proof. induction l as [|x l IH]; intros [|k] n d; cbn [skipn plus nth]; try reflexivity; [destruct n; reflexivity|apply IH]. Qed.
@@ -364,28 +370,25 @@ Lemma mask_lit m : 0 <= m < 256 -> clr_hopp m = Z.land m 253 /\ set_hopp (clr_ho
 Proof. intros H. pose proof (forallb_range _ _ _ mask_sweep m H) as S. cbv beta in S. lia. Qed.
 
 (* ------------------------------------------------------------------ property-level statements (re-exported by Props/C20.v) *)
-Lemma decode_is_gnu freq ma len hop hl si4 : 1 <= len -> decode freq ma len hop hl si4 = decode_gnu freq ma len hop hl si4.
-Proof. intros H. unfold decode. rewrite shiftl3. replace (8 * len <=? 0) with false by lia. reflexivity. Qed.
-
 Lemma spec_thm freq ma len hop hl si4 :
-  Zlength freq = 1024 -> 1 <= len <= 8 -> len <= Zlength ma -> Zlength hop = 64 ->
+  Zlength freq = 1024 -> 0 <= len <= 8 -> len <= Zlength ma -> Zlength hop = 64 ->
   exists freq', decode freq ma len hop hl si4 =
     Ok 0 (mkst freq' (spec_hopping freq ma len ++ skipn (length (spec_hopping freq ma len)) hop) (Zlength (spec_hopping freq ma len))).
-Proof. intros Hfl Hlen Hma Hhop. rewrite decode_is_gnu by lia.
-  destruct (decode_gnu_ok freq ma len hop hl si4 Hfl Hlen Hma ltac:(lia)) as ([fr' hop' hl'] & E & H1 & H2 & H3 & H4 & H5).
+Proof. intros Hfl Hlen Hma Hhop.
+  destruct (decode_ok freq ma len hop hl si4 Hfl Hlen Hma ltac:(lia)) as ([fr' hop' hl'] & E & H1 & H2 & H3 & H4 & H5).
   cbn [s_freq s_hop s_hlen] in *. exists fr'. rewrite E. f_equal. f_equal; [|exact H1].
   apply pointwise_app; [exact H2| |exact H4]. pose proof (spec_props freq ma len ltac:(lia)). lia. Qed.
 
 Lemma flags_thm freq ma len hop hl si4 rc s :
-  Zlength freq = 1024 -> 1 <= len <= 8 -> len <= Zlength ma -> Zlength hop = 64 ->
+  Zlength freq = 1024 -> 0 <= len <= 8 -> len <= Zlength ma -> Zlength hop = 64 ->
   Forall (fun m => 0 <= m < 256) freq ->
   decode freq ma len hop hl si4 = Ok rc s ->
   Zlength (s_freq s) = 1024 /\
   forall a, 0 <= a < 1024 ->
     zn (s_freq s) a = if si4 =? 0 then zn freq a
                       else if has (spec_hopping freq ma len) a then Z.lor (zn freq a) 2 else Z.land (zn freq a) 253.
-Proof. intros Hfl Hlen Hma Hhop Hm E. rewrite decode_is_gnu in E by lia.
-  destruct (decode_gnu_ok freq ma len hop hl si4 Hfl Hlen Hma ltac:(lia)) as (s' & E' & H1 & H2 & H3 & H4 & H5).
+Proof. intros Hfl Hlen Hma Hhop Hm E.
+  destruct (decode_ok freq ma len hop hl si4 Hfl Hlen Hma ltac:(lia)) as (s' & E' & H1 & H2 & H3 & H4 & H5).
   rewrite E' in E. injection E as <- <-. split; [exact H3|]. intros a Ha. rewrite H5 by lia.
   assert (Hr : 0 <= zn freq a < 256). { rewrite Forall_forall in Hm. apply Hm, zn_In. lia. }
   destruct (mask_lit _ Hr) as [-> ->]. reflexivity. Qed.
@@ -394,7 +397,7 @@ Lemma firstn_app_exact {A} (l x : list A) : firstn (Z.to_nat (Zlength l)) (l ++ 
 Proof. rewrite Zlength_correct, Nat2Z.id. apply firstn_exact. Qed.
 
 Lemma subset_thm freq ma len hop hl si4 rc s :
-  Zlength freq = 1024 -> 1 <= len <= 8 -> len <= Zlength ma -> Zlength hop = 64 ->
+  Zlength freq = 1024 -> 0 <= len <= 8 -> len <= Zlength ma -> Zlength hop = 64 ->
   decode freq ma len hop hl si4 = Ok rc s ->
   0 <= s_hlen s <= 64 /\ NoDup (firstn (Z.to_nat (s_hlen s)) (s_hop s)) /\
   forall x, In x (firstn (Z.to_nat (s_hlen s)) (s_hop s)) -> 0 <= x < 1024 /\ serving freq x = true.
@@ -405,10 +408,10 @@ Proof. intros Hfl Hlen Hma Hhop E. destruct (spec_thm freq ma len hop hl si4 Hfl
 
 Lemma long_thm freq ma len hop hl si4 : 8 < len <= 255 ->
   decode freq ma len hop hl si4 = Ok (-22) (mkst freq hop hl).
-Proof. intros H. rewrite decode_is_gnu by lia. unfold decode_gnu. replace (8 <? len) with true by lia. reflexivity. Qed.
+Proof. intros H. unfold decode. replace (8 <? len) with true by lia. reflexivity. Qed.
 
 Lemma in_bounds_thm freq ma len hop hl si4 :
-  Zlength freq = 1024 -> Zlength hop = 64 -> 1 <= len <= 255 -> (len <= 8 -> len <= Zlength ma) ->
+  Zlength freq = 1024 -> Zlength hop = 64 -> 0 <= len <= 255 -> (len <= 8 -> len <= Zlength ma) ->
   exists rc s, decode freq ma len hop hl si4 = Ok rc s.
 Proof. intros Hfl Hhop Hlen Hma. destruct (Z_le_gt_dec len 8) as [Hs|Hl].
   - destruct (spec_thm freq ma len hop hl si4 Hfl ltac:(lia) (Hma Hs) Hhop) as (fr' & E). rewrite E. eauto.
@@ -422,34 +425,18 @@ Proof. intros Hz. unfold spec_hopping. replace (filter (ma_bit ma len) (range 0 
   rewrite Forall_forall in Hz. rewrite (Hz _ Hin), Z.bits_0. reflexivity. Qed.
 
 Lemma zero_bitmap_thm freq ma len hop hl si4 :
-  Zlength freq = 1024 -> 1 <= len <= 8 -> len <= Zlength ma -> Zlength hop = 64 -> Forall (fun b => b = 0) ma ->
+  Zlength freq = 1024 -> 0 <= len <= 8 -> len <= Zlength ma -> Zlength hop = 64 -> Forall (fun b => b = 0) ma ->
   exists freq', decode freq ma len hop hl si4 = Ok 0 (mkst freq' hop 0).
 Proof. intros Hfl Hlen Hma Hhop Hz. destruct (spec_thm freq ma len hop hl si4 Hfl Hlen Hma Hhop) as (fr' & E).
   rewrite spec_zero_bitmap in E by exact Hz. exists fr'. exact E. Qed.
 
-(* len = 0 on the pinned tree *)
-Lemma len0_vla_thm freq ma hop hl si4 : decode freq ma 0 hop hl si4 = VlaZero.
-Proof. reflexivity. Qed.
-
-Lemma decode_gnu_len0 freq ma hop hl si4 : Zlength freq = 1024 ->
-  decode_gnu freq ma 0 hop hl si4 =
-    match cell_alloc freq with
-    | [] => Ok 0 (mkst (if si4 =? 0 then freq else tabula_rasa freq) hop 0)
-    | _ :: _ => OOB
-    end.
-Proof. intros Hfl. unfold decode_gnu. change (Z.shiftl 0 3) with 0. change (8 <? 0) with false. cbv iota.
-  replace (Zlength freq <? 1024) with false by lia.
-  rewrite gen_f_cap0. destruct (si4 =? 0); cbn [negb].
-  - rewrite servl_visit by exact Hfl. destruct (cell_alloc freq); reflexivity.
-  - rewrite servl_visit_tr by exact Hfl. destruct (cell_alloc freq); reflexivity. Qed.
-
-Lemma empty_gnu_thm freq ma hop hl si4 : Zlength freq = 1024 -> cell_alloc freq = [] ->
-  decode_gnu freq ma 0 hop hl si4 = Ok 0 (mkst (if si4 =? 0 then freq else tabula_rasa freq) hop 0).
-Proof. intros Hfl Hca. rewrite decode_gnu_len0 by exact Hfl. rewrite Hca. reflexivity. Qed.
-
-Lemma len0_overflow_thm freq ma hop hl si4 : Zlength freq = 1024 -> cell_alloc freq <> [] ->
-  decode_gnu freq ma 0 hop hl si4 = OOB.
-Proof. intros Hfl Hca. rewrite decode_gnu_len0 by exact Hfl. destruct (cell_alloc freq); [contradiction|reflexivity]. Qed.
+(* the empty bitmap *)
+Lemma empty_thm freq ma hop hl si4 : Zlength freq = 1024 -> Zlength hop = 64 -> Forall (fun m => 0 <= m < 256) freq ->
+  decode freq ma 0 hop hl si4 = Ok 0 (mkst (if si4 =? 0 then freq else map (fun m => Z.land m 253) freq) hop 0).
+Proof. intros Hfl Hhop Hm. unfold decode. change (8 <? 0) with false. cbv iota. replace (Zlength freq <? 1024) with false by lia.
+  rewrite andb_false_r. change (0 =? 0) with true. cbv iota. destruct (si4 =? 0); cbn [negb]; [reflexivity|].
+  rewrite tabula_rasa_eq by exact Hfl. f_equal. f_equal. apply map_ext_in. intros m Hin.
+  rewrite Forall_forall in Hm. apply mask_lit, Hm, Hin. Qed.
 
 Lemma cut_all n bits : Forall (fun i => i < n) bits -> cut n bits = bits.
 Proof. induction 1 as [|i r Hi Hr IH]; [reflexivity|]. cbn [cut]. replace (i <? n) with true by lia. rewrite IH. reflexivity. Qed.
@@ -462,7 +449,7 @@ Proof. intros H. unfold spec_hopping. rewrite cut_all by exact H. reflexivity. Q
 (* ------------------------------------------------------------------ non-vacuity: concrete inputs *)
 Definition tbl (ca : list Z) (other : Z) : list Z := map (fun a => if has ca a then 1 + other else other) (range 0 1024).
 Definition obs (r : res) : list Z :=
-  match r with Ok rc s => [rc; s_hlen s] ++ firstn 5 (s_hop s) ++ [zn (s_freq s) 0; zn (s_freq s) 10; zn (s_freq s) 30; zn (s_freq s) 40] | OOB => [-998] | VlaZero => [-997] end.
+  match r with Ok rc s => [rc; s_hlen s] ++ firstn 5 (s_hop s) ++ [zn (s_freq s) 0; zn (s_freq s) 10; zn (s_freq s) 30; zn (s_freq s) 40] | OOB => [-998] end.
 
 (* cell allocation {0, 10, 20, 30} = ordered (10, 20, 30, 0); bitmap 0b1011 selects indices 0, 1, 3 = ARFCN 10, 20, 0;
    every entry starts with mask 0x42 (+ 0x01 in the cell allocation): the stale HOPP flags are cleared everywhere, 0x40 stays,
@@ -477,8 +464,8 @@ Example ex_cut : obs (decode (tbl [0; 10; 20; 30] 0) [2; 19] 2 (repeat 7 64) 9 0
 Proof. vm_compute. reflexivity. Qed.
 Example ex_two_octets : obs (decode (tbl [0; 10; 20; 30; 40; 50; 60; 70; 80; 90] 0) [2; 5] 2 (repeat 7 64) 9 0) = [0; 3; 10; 30; 0; 7; 7; 1; 1; 1; 1].
 Proof. vm_compute. reflexivity. Qed.
-(* the pinned tree: len = 0 *)
-Example ex_len0_overflow : decode_gnu (tbl [5] 0) [] 0 (repeat 7 64) 9 1 = OOB /\ decode (tbl [5] 0) [] 0 (repeat 7 64) 9 1 = VlaZero.
-Proof. split; vm_compute; reflexivity. Qed.
+(* len = 0: nothing selected, stale HOPP flags cleared (si4), hopp_len reset *)
+Example ex_len0 : obs (decode (tbl [5] 66) [] 0 (repeat 7 64) 9 1) = [0; 0; 7; 7; 7; 7; 7; 64; 64; 64; 64].
+Proof. vm_compute. reflexivity. Qed.
 Example ex_long : obs (decode (tbl [5] 0) (repeat 255 9) 9 (repeat 7 64) 9 1) = [-22; 9; 7; 7; 7; 7; 7; 0; 0; 0; 0].
 Proof. vm_compute. reflexivity. Qed.
